@@ -55,6 +55,10 @@ def pool_of(rs: int, index: int) -> int:
     return h64("pool", rs) % 3
 
 
+def worker_init() -> None:
+    W.preload_snoop_layer()
+
+
 # ------------------------------------------------------------------ generation
 def base_stream(S: Streams, label: str, max_frames: int) -> Dict[str, Any]:
     """A well-formed interleaved stream with at least one multi-frame transfer."""
@@ -289,6 +293,14 @@ def recovery_frames(S: Streams, monitored: List[int], interleave: bool) -> Tuple
 
 
 def gen(rs: int, index: int, tier: str) -> Dict[str, Any]:
+    c12.UDS_MODE[0] = Streams(rs).rng("uds").random() < 0.3
+    try:
+        return gen_(rs, index, tier)
+    finally:
+        c12.UDS_MODE[0] = False
+
+
+def gen_(rs: int, index: int, tier: str) -> Dict[str, Any]:
     S = Streams(rs)
     r = S.rng("cfg")
     batch_seed = worker._STATE.get("batch_seed", 0)
@@ -390,6 +402,8 @@ def gen(rs: int, index: int, tier: str) -> Dict[str, Any]:
                         "portions": re_.choice([1, 1, 2, 3])})
     if extra in ("bus", "both"):
         entries.append({"ep": "bus", "kind": re_.choice(["passive", "active", "vactive"])})
+    if len(monitored) == 2 and re_.random() < 0.5:
+        entries.append({"ep": "snoop", "kind": "passive", "nostrict": re_.random() < 0.5})
     return {
         "kind": "open",
         "mode": mode,
@@ -549,7 +563,7 @@ def run_text_segments(trace: Dict[str, Any], ent: Dict[str, Any], frames: List[T
                       metas: List[List[Any]], segs: List[int]) -> W.EntryResult:
     """Text entry point; a restart is a new reader session on the remaining lines."""
     bounds = [0] + [s for s in segs if 0 < s < len(frames)] + [len(frames)]
-    total = W.EntryResult(f"text-{ent['kind']}")
+    total = W.EntryResult(f"text-{ent['kind']}" if ent["ep"] == "text" else "snoop-passive")
     tcfg = trace.get("text", {})
     eol = "\r\n" if tcfg.get("crlf") else "\n"
     for a, b in zip(bounds, bounds[1:]):
@@ -568,8 +582,12 @@ def run_text_segments(trace: Dict[str, Any], ent: Dict[str, Any], frames: List[T
                     lines.append((n[1] + eol, None))
         if b == len(frames) and lines and not tcfg.get("last_newline", True):
             lines[-1] = (lines[-1][0].rstrip("\r\n"), lines[-1][1])
-        res = W.feed_text(lines, ent["kind"], trace["monitored"], trace["tx_ids"], trace.get("padding", 0),
-                          portions=int(ent.get("portions", 1)))
+        if ent["ep"] == "snoop" and len(trace["monitored"]) == 2:
+            # the whole tool pipeline (odxtools snoop reading the capture from stdin)
+            res = W.feed_snoop(lines, trace["monitored"], strict=not ent.get("nostrict"))
+        else:
+            res = W.feed_text(lines, ent["kind"] if ent["ep"] == "text" else "vpassive", trace["monitored"],
+                              trace["tx_ids"], trace.get("padding", 0), portions=int(ent.get("portions", 1)))
         total.reports += res.reports
         total.sent += res.sent
         total.fed += res.fed
@@ -715,7 +733,7 @@ def execute(trace: Dict[str, Any]) -> Dict[str, Any]:
         if ent["ep"] == "direct":
             res = W.feed_direct(frames, ent["kind"], monitored, tx_ids, ent.get("dt", "bytes"),
                                 trace.get("padding", 0), restarts=segs, consume=ent.get("consume", "all"))
-        elif ent["ep"] == "text":
+        elif ent["ep"] in ("text", "snoop"):
             res = run_text_segments(trace, ent, frames, metas, segs)
         else:
             res = run_bus_segments(trace, ent, frames, segs, clock)
